@@ -124,7 +124,7 @@ def run(ids, slots=3, baseline=True):
     json.dump(results, open(res_path, "w"), indent=1, sort_keys=True)
 
 
-if __name__ == "__main__":
+if __name__ == "__main__" and len(sys.argv) > 1:
     if sys.argv[1] == "make":
         make()
     elif sys.argv[1] == "run":
